@@ -12,6 +12,8 @@ params (all JSON-able; the codes are those of spec/MapLawsObs.tla):
   early     f_ form, timing 1: start comp1 *before* the chain is built (completion races the construction)
   cancel    None | ticks: thread can1 cancels the chain's output at that virtual time
   compose   also run the case as ONE stage with the composed function (run 1), see C13_Compose
+  in_except the futures of the case are completed, and the f_ chain is built, from inside the `except` block of an
+            unrelated exception (the propagated exception object and its traceback must not pick anything up from it)
 
 Events: Cfg, FnCall, CancelCall/CancelRet, Result, End (see MapLawsObs.tla).  The observed term is computed
 from the real result object: tags by structural inspection of the T values, values and exceptions by
@@ -79,6 +81,19 @@ def tb_codes(exc):
 
 def tb_has_origin(exc):
     return _raise_here.__code__ in tb_codes(exc)
+
+
+def _unrelated():
+    raise KeyError("unrelated")
+
+
+def _maybe_in_except(p, thunk):
+    if not p.get("in_except"):
+        return thunk()
+    try:
+        _unrelated()
+    except KeyError:
+        return thunk()
 
 
 class Run(object):
@@ -154,9 +169,9 @@ class Run(object):
                 return
             E.upoint()
             if kind == "V":
-                fut.set_result(val)
+                _maybe_in_except(self.p, lambda: fut.set_result(val))
             else:
-                fut.set_exception(val)
+                _maybe_in_except(self.p, lambda: fut.set_exception(val))
 
         E.spawn(name, work)
 
@@ -251,7 +266,8 @@ class Run(object):
             from more_executors.futures import f_proxy
             cur = f_proxy(fut)
         for flat, fn, efn in stages_fns:
-            cur = f_flat_map(cur, fn, error_fn=efn) if flat else f_map(cur, fn, error_fn=efn)
+            cur = _maybe_in_except(p, lambda cur=cur: f_flat_map(cur, fn, error_fn=efn) if flat
+                                   else f_map(cur, fn, error_fn=efn))
         if starter:
             starter()
         return cur
